@@ -166,6 +166,39 @@ Theorem C03_optional_quotes_converge :
         parse_document numcanon holo_ok strict sp alpha st2 = POk d st2'.
 Proof. exact QuoteConverge.optional_quotes_converge. Qed.
 
+(* ---- SPELLING FREEDOMS OF STRINGS CONVERGE, TEXT LEVEL (Rt/LexSpell*.v + Rt/MultiWord.v) -----------------------------------
+   render_sp qa qm qi d writes the canonical layout with every string site spelled per oracle: quoted, bare word, $VAR,
+   TRIPLE-QUOTED, or MULTI-WORD (assignment / META sites; any positive number of blanks between the words).  For any two
+   admissible oracle families the whole reader model reads both texts as d -- so both canonicalise to `emit sp d` -- and
+   the receipts are exactly the rewrites: one lexer normalization receipt per triple-quoted site (reps = RC ts (doc_tq ..))
+   and one multi_word_coalesce record per multi-word site (filter is_mw warns = E ts (doc5_mk ..)), every other warning
+   advisory.  The canonical text is the instance with the emitter's own spelling and has no receipt at all. *)
+From OV Require Rt.MultiWord Rt.LexSpellText Rt.LexSpell Rt.LexSpellEx.
+Theorem C03_text_spellings_same_canonical :
+  forall cls numcanon holo_ok strict sp d
+         (qa1 : str -> str -> LexSpellText.spelling) (qm1 : str -> LexSpellText.spelling) (qi1 : str -> BareWordParse.strk)
+         (qa2 : str -> str -> LexSpellText.spelling) (qm2 : str -> LexSpellText.spelling) (qi2 : str -> BareWordParse.strk),
+    core2_doc d = true -> MultiWord.nums_ok2_l numcanon ex_idnum (dsections d) -> Forall (MultiWord.field_num_ok numcanon) (dmeta d) ->
+    LexSpellText.sp_safe_doc qa1 qm1 qi1 d = true -> LexSpell.admissible qa1 qm1 qi1 ->
+    LexSpellText.sp_safe_doc qa2 qm2 qi2 d = true -> LexSpell.admissible qa2 qm2 qi2 ->
+    forall d1 d2 r1 r2 w1 w2,
+      parse_model cls numcanon holo_ok strict (lines_of (LexSpellText.render_sp qa1 qm1 qi1 d)) = PRDoc d1 r1 w1 ->
+      parse_model cls numcanon holo_ok strict (lines_of (LexSpellText.render_sp qa2 qm2 qi2 d)) = PRDoc d2 r2 w2 ->
+      emit sp d1 = emit sp d2 /\ emit sp d1 = emit sp d.
+Proof. exact LexSpell.text_spellings_same_canonical. Qed.
+
+Theorem C03_text_spellings_converge :
+  forall cls numcanon holo_ok strict d qa1 qm1 qi1 qa2 qm2 qi2,
+    core2_doc d = true -> MultiWord.nums_ok2_l numcanon ex_idnum (dsections d) -> Forall (MultiWord.field_num_ok numcanon) (dmeta d) ->
+    LexSpellText.sp_safe_doc qa1 qm1 qi1 d = true -> LexSpell.admissible qa1 qm1 qi1 ->
+    LexSpellText.sp_safe_doc qa2 qm2 qi2 d = true -> LexSpell.admissible qa2 qm2 qi2 ->
+    LexSpell.spelled_reading cls numcanon holo_ok strict qa1 qm1 qi1 d /\ LexSpell.spelled_reading cls numcanon holo_ok strict qa2 qm2 qi2 d.
+Proof. exact LexSpell.text_spellings_converge. Qed.
+
+Theorem C03_text_spellings_nonvacuous :
+  LexSpell.spelled_reading TokRoundEx.ex_cls ex2_numcanon (fun _ => false) false LexSpellEx.qaX LexSpellEx.qmX LexSpellEx.qiX LexSpellEx.sx_doc.
+Proof. exact LexSpellEx.sx_by_theorem. Qed.
+
 (* ---- source-text pins (generated by harness/pinsets.py) ---- *)
 (* every function of these modules is, text for text (comments and docstrings excluded), the one the models of this
    property were written against and validated against: harness/translate/srcdigest_t.py, Src/Pin_*.v *)
